@@ -645,12 +645,16 @@ func (x *Exec) applyLemma(ap *ApplySpec, pos token.Pos, id string) {
 		}
 		lenv.vars[lv.Name] = v
 	}
+	pc := x.curPC
+	if ap.When != nil {
+		pc = mkAnd(pc, x.evalBool(ap.When, cenv))
+	}
 	for k, h := range lem.Hyps {
 		t := x.evalBool(h, lenv)
-		x.oblige(fmt.Sprintf("%s/hyp/%d", id, k+1), "lemma-hyp", x.curPC, t, ap.Lemma+": "+h.Text, pos)
+		x.oblige(fmt.Sprintf("%s/hyp/%d", id, k+1), "lemma-hyp", pc, t, ap.Lemma+": "+h.Text, pos)
 	}
 	g := x.evalBool(lem.Goal, lenv)
-	x.vc.assume(mkImp(x.curPC, g))
+	x.vc.assume(mkImp(pc, g))
 	x.w.noteLemmaUse(ap.Lemma)
 }
 
@@ -1572,6 +1576,9 @@ func (x *Exec) doReturn(r *ssa.Return) {
 	}
 	if len(results) == 1 {
 		env.vars["result"] = results[0]
+	}
+	for n, v := range x.callRes {
+		env.vars[n] = v
 	}
 	pos := r.Pos()
 	site := fmt.Sprintf("ret@+%d.%d", x.relLine(pos), x.retCount)
